@@ -686,7 +686,7 @@ func (e *c02Env) eval(v ssa.Value) (val, known bool) {
 			switch {
 			case isNilConst(o):
 				return x.Op == token.EQL, true
-			case c02ErrShapeNonNil(o):
+			case c02ErrShapeNonNil(o) || c02MadeNonNil(o):
 				return x.Op == token.NEQ, true
 			}
 		}
@@ -868,8 +868,9 @@ func c02ExploreEdges(start *ssa.BasicBlock, startIdx int, env *c02Env, visit fun
 type c02XOpts struct {
 	Visit    func(in ssa.Instruction, env *c02Env) c02Action
 	EdgeStop func(from, to *ssa.BasicBlock, env *c02Env) bool
-	NoCalls  bool // do not step into callees
-	MaxDepth int  // how many helper levels to step into (default 2)
+	Opaque   func(cond ssa.Value) bool // extra: undecided conditions that make a hit "not positively established"
+	NoCalls  bool                      // do not step into callees
+	MaxDepth int                       // how many helper levels to step into (default 2)
 }
 
 type c02Frame struct {
@@ -1052,7 +1053,7 @@ func c02ExploreX(start *ssa.BasicBlock, startIdx int, env *c02Env, o *c02XOpts) 
 				opq := it.opaque
 				if !known {
 					ne.learn(ifi.Cond, branch)
-					if it.env.opaqueCond(ifi.Cond, home) {
+					if it.env.opaqueCond(ifi.Cond, home) || (o.Opaque != nil && o.Opaque(ifi.Cond)) {
 						opq = append(append([]ssa.Value{}, opq...), ifi.Cond)
 					}
 				}
@@ -1615,4 +1616,24 @@ func (e *c02Env) assumeNilness(v ssa.Value, isNil bool) {
 		a, b = b, a
 	}
 	e.facts["eq|"+a+"|"+b] = c02ExprFact{val: isNil, ops: []ssa.Value{v}}
+}
+
+// c02MadeNonNil: v is non-nil by construction: a freshly made slice / map /
+// channel / closure / interface value, an allocation or the address of a part
+// of one, a slice of an array that exists (value-or-nil state: a variable that
+// is either nil or such a value is a flag).
+func c02MadeNonNil(v ssa.Value) bool {
+	switch x := v.(type) {
+	case *ssa.MakeSlice, *ssa.MakeMap, *ssa.MakeChan, *ssa.MakeClosure, *ssa.MakeInterface, *ssa.Alloc, *ssa.FieldAddr, *ssa.IndexAddr, *ssa.Function, *ssa.Global:
+		return true
+	case *ssa.Slice:
+		// slicing a pointer to an array (make([]T, n) with constant n lowers to this) never yields nil; slicing a slice keeps its nil-ness
+		if _, isPtr := x.X.Type().Underlying().(*types.Pointer); isPtr {
+			return true
+		}
+		return c02MadeNonNil(x.X)
+	case *ssa.ChangeType:
+		return c02MadeNonNil(x.X)
+	}
+	return false
 }
